@@ -399,7 +399,7 @@ def replay_baton(rec):
 def specs_for(N, fs, limit=8):
     out = []
     for k, f in enumerate(fs):
-        out.append(dict(f=f, N=N, box=("B0", "B1", "B2")[k % 3], r=2.0 + k, eps=0.05, limit=limit))
+        out.append(dict(f=f, N=N, box=("B0", "B1", "B2")[k % 3], r=2.0 + k, eps=(0.05, 0.3, 0.12)[k % 3], limit=limit))
     return out
 
 
@@ -441,6 +441,10 @@ def run(ctx):
     for N in (1, 2):
         tasks += shared("problem", (N, N), ("neg", "neg"), ["c", "i", "i", "L", "i", "r"])
         tasks += shared("own", (N, N), ("neg", "quad0"), ["c", "i", "i", "L", "i", "r"])
+    # very different eps: each solver stops by ITS accuracy (Solve runs far beyond the step-wise part)
+    for N in (1, 2):
+        sp = [dict(f="neg", N=N, box="B1", r=2.5, eps=0.01, limit=120), dict(f="quad0", N=N, box="B1", r=2.5, eps=0.4, limit=120)]
+        tasks += [dict(specs=sp, ops=["c", "i", "S", "r"], first=None)]
     # one of two solvers (own and shared Problem) has its evolvent re-configured with SetBounds
     for N in (1, 2):
         tasks += shared("problem", (N, N), ("neg", "neg"), ["c", "i", "B", "i", "i", "r"])
